@@ -19,6 +19,10 @@ def operand(kind, i, site):
         return ("try", ("E", site, v), ("finally", ("E", site + 1))), 2
     if kind == "sw":
         return ("with", ("[", ("CM", site)), ("E", site + 2, v)), 3
+    if kind == "sn":  # statement operand with no value of its own (evaluates to None)
+        return ("setv", "q%d" % i, ("E", site, v)), 1
+    if kind == "sl":
+        return ("for", ("[", "i%d" % i, ("[", 1)), ("E", site, v)), 1
     if kind == "na":  # nested and
         return ("and", ("E", site, v), ("do", ("setv", "r%d" % i, ("E", site + 1, "v%d" % (i + 10))), "r%d" % i)), 2
     if kind == "no":
@@ -59,11 +63,19 @@ def patterns(tier):
         out.append(tuple(["pv"] * n))
         out.append(tuple(["pe"] * n))
     # nested and/or and with-operands
-    ext = ["pe", "sx", "na", "no", "sw"]
+    ext = ["pe", "sx", "na", "no", "sw", "sn", "sl"]
     for n in range(1, 4 if tier == "quick" else 5):
         for ks in itertools.product(ext, repeat=n):
-            if any(k in ("na", "no", "sw") for k in ks):
+            if any(k in ("na", "no", "sw", "sn", "sl") for k in ks):
                 out.append(ks)
+    # a valueless statement operand at every position of longer forms
+    for n in (4, 5, 6):
+        for pos in range(n):
+            for kd in ("sn", "sl"):
+                for plain in ("pv", "pe"):
+                    ks = [plain] * n
+                    ks[pos] = kd
+                    out.append(tuple(ks))
     return out
 
 
@@ -112,7 +124,7 @@ def spec(tier, seed):
             "hy.compiler.HyASTCompiler.compile / Result (statement lifting, temporaries)",
             "hy.reader (concrete, at harness-generation time)",
         ],
-        "bounds": "operand count 0..%d for all 4-kind patterns {plain name, effectful call, setv-statement operand, "
+        "bounds": "valueless statement operands (setv, for) at every position; operand count 0..%d for all 4-kind patterns {plain name, effectful call, setv-statement operand, "
                   "try/finally-statement operand}; arities up to 8 with <=2 statement operands at every position pair; nested "
                   "and/or and with-operands up to arity %d; module level, inside (fn []) and as the value of (setv r ...); truthiness of every operand "
                   "value is a solver variable" % ((4, 3) if tier == "quick" else (6, 4)),
